@@ -400,3 +400,7 @@ CLAIMS["C19"]["text"] += (" Time is generated at nanosecond granularity: issue i
 CLAIMS["C19"]["note"] += (" Acceptance exactly at the TTL instant and refusal before expiry are not judged; the issue instant is the virtual instant at which the harness saw the value handed out.")
 
 CLAIMS["C20"]["text"] += (" The swarm-level part also draws public UDP/IPv6 addresses no transport of the swarm can dial (QUIC draft-29, bare /udp): they are dropped before the detector is consulted, so the history-derived oracle counts no request for them (a query the detector never sees uses up no probe), CanDial must be false and they are never handed to a transport.")
+
+CLAIMS["C06"]["text"] += (" TestUpgradedConnKeepsLimitedFlag covers the stretch before the swarm: connections built by the repository's own upgrader (private-network wrapping on or off, Noise or TLS, yamux) out of raw connections that say whether they are limited (as the relay client's do), dialled through a real swarm with and without a metrics tracer: Stat().Limited on both ends, ConnsToPeer, Connectedness, the published event and NewStream without WithAllowLimitedConn must follow what the raw connection said.")
+CLAIMS["C15"]["text"] += (" Read-only queries (Bus.GetAllEventTypes, Subscription.Name/Out) are generated as concurrent operations at every instant, including next to Subscribe / Close / Emitter calls while an Emit stays stalled on a slow subscriber, and enumerated during every basic stall shape, alone and racing the Close / creation of an unrelated type: each query must have returned at the next quiescence point and must not keep any other call from returning.")
+CLAIMS["C15"]["note"] += (" Query answers are not judged. A query is planned as a call that never waits for a subscriber, so a query that waits behind a stalled Emit freezes the bubble and is reported through the 120 s watchdog.")
